@@ -67,7 +67,7 @@ func c15Run(r *engine.Run) int {
 		cases = append(cases, engine.J(c15Case{Kind: "conn", First: []int{a}, Depth: 1}))
 	}
 	k := 0
-	engine.Map("c15", cases, func(i int, c json.RawMessage, res *engine.Result) {
+	r.MapBudget("c15", cases, func(i int, c json.RawMessage, res *engine.Result) {
 		r.Add("c15", c, res)
 		k++
 		if k%499 == 1 && res.Data != nil {
